@@ -20,6 +20,14 @@ PROPERTIES = {
         explanation="relation tests proved equal to a specification written from the operator documentation; algebraic laws proved over the specification",
         assumptions=["for an empty subject set the code returns false for both an operator and its negation; the complement law is stated for non-empty subject sets"],
     ),
+    'C04': dict(
+        units=['u_off'],
+        level_text="Deductive proof (Verus/Z3), for every cursor pair and every text length, that TextResource::textselection_by_offset(_unchecked) and TextSelection::textselection_by_offset accept an offset exactly when it denotes 0 <= begin <= end <= length and then return exactly that range; that beginaligned_cursor rejects positive end-aligned cursors; that relative_offset reports, in all four alignment modes, a well-formed offset (end-aligned cursors <= 0) that re-resolves to the same absolute range; no arithmetic overflow or panic in any of these.",
+        level_note="Trusted: isize::abs/unsigned_abs specs, 64-bit usize, error-message text (vx_msg). Preconditions: ranges are well formed and text positions fit isize (Rust allocation limit). Not decided: that the annotation's text is precisely those codepoints (needs utf8byte, see C12) and Selector::offset_with_mode's store lookups.",
+        design_ref='DESIGN.md §7.4',
+        explanation="acceptance condition taken from the property statement (accept(o, len)), proved as an iff on the real functions",
+        assumptions=["text length <= isize::MAX (Rust allocation limit)"],
+    ),
 }
 
 NOT_APPLICABLE = {
